@@ -16,7 +16,7 @@
    PARTIAL: quoted values with escapes, white space and folds around "=" and the separators, empty
    list items, the white-space-then-token terminator, and the converse direction (accepted => of
    that shape) are not proved: render/parse oracle + correspondence (chunked too). *)
-From Sipsp Require Import Harness Misc HdrSpec TokSpec UListSpec UHListSpec TokEoi TokItem.
+From Sipsp Require Import Harness Misc HdrSpec TokSpec UListSpec UHListSpec TokEoi TokItem UListGen.
 Theorem C17_character_set : forall up c, tok_allowed up c = true <-> In c (allowed_set up).
 Proof. exact tok_allowed_spec. Qed.
 Theorem C17_bad_byte_in_name_rejected_there : forall f (rest : list byte) i s c,
@@ -209,7 +209,56 @@ Proof.
     apply qc_char; [repeat split; reflexivity|]. apply qc_esc; [reflexivity|]. apply qc_char; [repeat split; reflexivity|]. constructor.
   - split; [apply G1; [discriminate|repeat constructor]|]. split; [repeat split; reflexivity|]. vm_compute. reflexivity.
 Qed.
+(* ---- the URI parameter list with general items ---------------------------------------------------------------------------------------- *)
+Theorem C17_general_list_means : forall flags0 (g : gitem) gs i,
+  let flags := N.lor flags0 (2 ^ bPOptParamSemiSep) in
+  (g_ok flags0 g <-> plain flags (g_n0 g) /\ Forall (plain flags) (g_name g) /\ vok flags (g_v g) /\ gap flags (g_w g) /\ gap flags (g_w4 g)) /\
+  g_item g = (g_n0 g :: g_name g) ++ vbody (g_v g) /\
+  g_more flags0 g = g_item g ++ g_w g ++ tf_sep (tp_decode flags) :: g_w4 g /\ g_last g = g_item g ++ g_w g /\
+  gl_bytes flags0 (g :: gs) = match gs with [] => g_last g | _ => g_more flags0 g ++ gl_bytes flags0 gs end /\
+  gl_entries flags0 i (g :: gs) = match gs with
+                                  | [] => [g_entry g i ETerm PFIN]
+                                  | _ => g_entry g i ESep PInitNxtVal :: gl_entries flags0 (i + nnat (length (g_more flags0 g))) gs
+                                  end /\
+  (forall en st, g_entry g i en st =
+     let a := i + nnat (length (g_n0 g :: g_name g)) in
+     mkuriparam (exp_item i a (g_v g) en (a + nnat (length (vbody (g_v g))) + nnat (length (g_w g))) st) (uri_param_resolve (g_n0 g :: g_name g))).
+Proof.
+  intros. split; [reflexivity|]. split; [reflexivity|]. split; [reflexivity|]. split; [reflexivity|].
+  split; [destruct gs; reflexivity|]. split; [destruct gs; reflexivity|reflexivity].
+Qed.
+Theorem C17_uri_parameter_list_general_items : forall flags0 gs (junk : list byte) t r n, gs <> [] -> Forall (g_ok flags0) gs ->
+  is_term_c (N.lor flags0 (2 ^ bPOptParamSemiSep)) t = true ->
+  let i := nnat (length junk) in
+  let es := gl_entries flags0 i gs in
+  exists L, parse_all_uri_params flags0 (junk ++ gl_bytes flags0 gs ++ t :: r) i (uparams_init (repeat uriparam0 n))
+            = Done (i + nnat (length (gl_bytes flags0 gs))) EOk L /\
+    ul_n L = nnat (length gs) /\ ul_vno L = nnat (length gs) /\
+    ul_types L = fold_left (fun a p => N.lor a (up_t p)) es 0 /\
+    (forall j, (j < length gs)%nat -> (j < n)%nat -> nth j (ul_params L) uriparam0 = nth j es uriparam0).
+Proof. exact uri_params_general_list_spec. Qed.
+(* satisfiable: transport = udp ; lr;x=<quoted 1> then '?' *)
+Example C17_general_list_example :
+  let f := 2 ^ bPOptTokQmTerm in
+  let gs := [mkgitem 116 [114;97;110;115;112;111;114;116] (VTok [32] [32] 117 [100;112]) [32] [32];
+             mkgitem 108 [114] VMissing [] [];
+             mkgitem 120 [] (VQuoted [] [] [49]) [] []] in
+  Forall (g_ok f) gs /\
+  match parse_all_uri_params f (gl_bytes f gs ++ [63]) 0 (uparams_init (repeat uriparam0 2)) with
+  | Done o e L => o = 26 /\ e = EOk /\ ul_n L = 3 /\ map (fun p => (tp_name (up_param p), tp_val (up_param p), up_t p)) (ul_params L)
+                  = [(mkpf 0 9, mkpf 12 3, URIParamTransportF); (mkpf 18 2, pf0, URIParamLRF)]
+  | _ => False
+  end.
+Proof.
+  cbv zeta. pose proof (C17_white_space_runs (N.lor (2 ^ bPOptTokQmTerm) (2 ^ bPOptParamSemiSep))) as (G1 & G2 & G3).
+  assert (Gs : gap (N.lor (2 ^ bPOptTokQmTerm) (2 ^ bPOptParamSemiSep)) [32]) by (apply G1; [discriminate|repeat constructor]).
+  split.
+  - repeat (constructor; [unfold g_ok; cbn [g_n0 g_name g_v g_w g_w4 vok]; repeat split; try exact Gs; try exact G3; try reflexivity; repeat constructor; try reflexivity|]).
+    constructor.
+  - vm_compute. repeat split.
+Qed.
 Print Assumptions C17_param_then_next_param_at_any_offset.
+Print Assumptions C17_uri_parameter_list_general_items.
 Print Assumptions C17_item_ended_by_terminator.
 Print Assumptions C17_item_then_next_item.
 Print Assumptions C17_item_ended_by_end_of_input.
